@@ -67,6 +67,19 @@ template <int N> struct P<N, 3>
 	static const bool copyable = true;
 };
 
+// kind 4: trivially copyable as far as the copy constructor goes, but with a user-provided move constructor (a handle that
+// records its moves): moving an AnyData that holds it inline must run that move constructor, a bytewise relocation is not a
+// move (a heap-held object changes hands by pointer and is not moved itself)
+template <int N> struct P<N, 4>
+{
+	unsigned char b[N];
+	explicit P(int seed) { for(int i = 0; i < N; ++i) b[i] = patt(seed, i); }
+	P(const P &) = default;
+	P(P && o) noexcept { memcpy(b, o.b, N); ++counters().moves; }
+	bool equals(int seed) const { for(int i = 0; i < N; ++i) if(b[i] != patt(seed, i)) return false; return true; }
+	static const bool copyable = true;
+};
+
 template <typename T, bool Copyable> struct Make;
 template <typename T> struct Make<T, true>
 {
@@ -96,7 +109,7 @@ CaseResult runCase(const Program & prog)
 	using AD = eventpp::AnyData<M>;
 	using Other1 = P<N, (K == 0 ? 1 : 0)>;            // same size, different kind
 	using Other2 = P<(N == 256 ? 255 : N + 1), K>;     // different size, same kind
-	using Partner = P<(N <= 32 ? 100 : 4), (K == 3 ? 1 : K)>; // a payload of very different size in the same queue
+	using Partner = P<(N <= 32 ? 100 : 4), (K == 3 || K == 4 ? 1 : K)>; // a payload of very different size in the same queue
 	CaseResult r;
 	const int seed = prog.params.size() > 3 ? prog.params[3] : 1;
 	const size_t cap = sizeof(AD) - sizeof(void *);
@@ -142,6 +155,7 @@ CaseResult runCase(const Program & prog)
 				shells.push_back(next);
 				cur = next;
 				if(counters().copies != copiesBefore) r.fail("anydata.move.copied", "moving an AnyData copied the held object instead of moving it");
+				if(K == 4 && sizeof(T) <= cap && counters().moves - movesBefore != 1) r.fail("anydata.move.notmoved", "moving an AnyData did not run the held object's move constructor (" + std::to_string(counters().moves - movesBefore) + " moves counted): the object was relocated bytewise or copied");
 				if(K == 3 && useCount(cur->template get<T>()) != useBefore) r.fail("anydata.move.shared", "moving an AnyData changed the use_count of the held shared pointer from " + std::to_string(useBefore) + " to " + std::to_string(useCount(cur->template get<T>())) + " (the held object was copied)");
 				if(counters().moves - movesBefore > 1) r.fail("anydata.move.count", "one AnyData move performed " + std::to_string(counters().moves - movesBefore) + " moves of the held object");
 				check(*cur, "after move");
